@@ -524,6 +524,9 @@ def report(prop, results, tier, seed, level, assumptions, trusted, bounded, t0, 
                 wit = f
                 handled_native.add((unit, cl))
                 break
+        if wit is None and o.get('kind') == 'ground' and o['status'] == 'refuted':
+            # ground obligations are evaluated on the real tables: the falsifying instance is the witness
+            wit = {'clause': o['name'], 'detail': o.get('detail'), 'inputs': o.get('ground_witness')}
         kf = match_known(known, o['name'])
         if kf is not None:
             known_seen.append(kf)
